@@ -476,10 +476,10 @@ def _k3_obligations(tier: str) -> List[Ob]:
 
     if tier == 'quick':
         add('beside:suite-single-phase', 'beside', s=(0,) + singles + (63,), c=63, pp='conf-bit')
-        add('beside:case-single-phase', 'beside', s=63, c=(0,) + singles, pp=True)
-        add('named', 'named', s=63, c=(21, 63), pp='free')
-        add('both', 'both', s=63, pp=True, c=63, b=(21, 42), bpp='free', timeout=2000)
-        add('sub', 'sub', s=63, pp=True, c=63, b=(0, 63), bpp='free', timeout=2000)
+        add('beside:case-single-phase', 'beside', s=63, c=(0, 1, 4, 32), pp=True)
+        add('named', 'named', s=63, c=63, pp='free')
+        add('both', 'both', s=63, pp=True, c=63, b=42, bpp='free', timeout=2000)
+        add('sub', 'sub', s=63, pp=True, c=63, b=(0, 63), bpp=True, timeout=2000)
         add('beside:dir-arg', 'beside', s=63, pp=True, c=42, suite_as_dir=True)
     else:
         for lo in range(0, 64, 16):
@@ -677,6 +677,17 @@ FORM_GROUPS = (
 )
 
 
+# the quick tier leaves out the second, third ... use of the same kind of value
+THOROUGH_ONLY_FORMS = (
+    'list in program arguments', 'env value from symbol', 'cd to directory from symbol',
+    'text from a here document with a symbol', 'text-source symbol', 'filter contents matches REGEX-FROM-SYMBOL',
+    'line-matcher symbol', 'filter -line-nums TWO-RANGES-FROM-SYMBOLS', 'integer-matcher symbol', 'files-condition symbol',
+    'exit-code == INTEGER-FROM-SYMBOL', 'files selected by GLOB-FROM-SYMBOL', 'path relative to PATH-SYMBOL',
+    'program of an assertion with argument from symbol', 'existing-file program argument from PATH-SYMBOL',
+    'suite path symbol in the sandbox', 'suite program symbol with argument from the case',
+    'suite line-matcher symbol using a regex of the case')
+
+
 def _k5_obligations(tier: str) -> List[Ob]:
     obs = []
     what = ('a suite supplies an instruction that refers to symbols which each of its two cases defines differently; each '
@@ -687,6 +698,8 @@ def _k5_obligations(tier: str) -> List[Ob]:
     if sorted(grouped) != sorted(L.SYMBOL_FORM_NAMES):
         raise RuntimeError('harness error: FORM_GROUPS does not partition the catalogue of forms')
     for gname, forms in FORM_GROUPS:
+        if tier == 'quick':
+            forms = tuple(f for f in forms if f not in THOROUGH_ONLY_FORMS)
         c = dict(forms=tuple(idx(f) for f in forms))
         if tier == 'quick':
             c['b_first'] = False
